@@ -62,6 +62,39 @@ FIXTURES = [("TestFont.ufo", "compileTTF"), ("TestFont.ufo", "compileOTF"),
             ("CantarellAnchorPropagation.ufo", "compileTTF")]
 
 
+def gen_dotted_circle_average(rng, tier):
+    """The dottedCircle filter gives U+25CC the AVERAGE position of an anchor over all bases:
+    three fractional positions whose exact mean lies on a rounding boundary (508.5) - the result
+    must not depend on the order in which the glyphs happen to be visited (creation order,
+    sorted order after re-opening, set order under another hash seed)."""
+    glyphs = []
+    tops = [(250, 500.3), (240.7, 505.4), (262.1, 519.8), (250, 508.5)]
+    bots = [(250, -100.3), (233.3, -105.4), (270.9, -119.8), (250, -108.5)]
+    for i, (nm, cp) in enumerate((("a", 0x61), ("e", 0x65), ("o", 0x6F), ("n", 0x6E))):
+        g = S._spec(rng, nm, [cp])
+        g["width"] = 500
+        g["anchors"] = [{"name": "top", "x": tops[i][0], "y": tops[i][1]},
+                        {"name": "bottom", "x": bots[i][0], "y": bots[i][1]}]
+        glyphs.append(g)
+    for nm, cp, an in (("acutecomb", 0x301, "_top"), ("dotbelowcomb", 0x323, "_bottom")):
+        g = S._spec(rng, nm, [cp], mark=True)
+        g["anchors"] = [{"name": an, "x": 0, "y": 480 if an == "_top" else -20}]
+        glyphs.append(g)
+    dc = S._spec(rng, "uni25CC", [0x25CC])
+    dc["width"] = 688
+    glyphs.append(dc)
+    glyphs.append(S._spec(rng, "space", [0x20], empty=True))
+    rng.shuffle(glyphs)
+    ufo = {"glyphs": glyphs, "kerning": [], "groups": {}, "features": "",
+           "lib": {"com.github.googlei18n.ufo2ft.filters": [{"name": "dottedCircle", "pre": True}]},
+           "glyphOrder": [g["name"] for g in glyphs],
+           "info": {"unitsPerEm": 1000, "familyName": "T", "styleName": "R"}}
+    func = rng.choice(["compileTTF", "compileOTF"])
+    return {"kind": "outline", "ufo": ufo, "func": func, "opts": {}, "per_lib": False,
+            "dotted_circle_average": True,
+            "other_func": "compileOTF" if func == "compileTTF" else "compileTTF", "tier": tier}
+
+
 def gen_case_pairs(rng, tier):
     """Glyph names that differ in case only (a / A, v / V ...), none of them in the stored glyph
     order: whatever orders the unlisted glyphs must be a total order of the NAMES - anything
@@ -128,6 +161,8 @@ def gen(rng, idx, tier):
         return gen_shared_options(rng, tier)
     if idx == len(FIXTURES) + 1:
         return gen_case_pairs(rng, tier)
+    if idx == len(FIXTURES) + 2:
+        return gen_dotted_circle_average(rng, tier)
     r = rng.random()
     if r < 0.3:
         ds = masters.family(rng, n_glyphs=rng.choice([4, 6]), missing_glyph=False,
@@ -371,6 +406,8 @@ def run(case):
         bump("cases_compared")
     if case.get("per_lib"):
         bump("cases_partial_glyph_order")
+    if case.get("dotted_circle_average"):
+        bump("cases_dotted_circle_anchor_average_on_a_rounding_boundary")
     if case.get("opts_objects"):
         bump("cases_with_writer_or_filter_instances_shared_by_all_calls")
     if case.get("case_pairs"):
